@@ -27,6 +27,11 @@ ASSUMPTIONS = ["trailing non-emitting states after the last emitting state are a
 
 
 def gen_case(rng, i, tier):
+    if i % 60 == 13:
+        case = mcase.gen_large_mcase(rng)
+        case["ops"] = gen.gen_history(rng, len(case["trace"]), case["cfg"]["width"], allow_cwd=False, max_ops=2)
+        case["debug"] = False
+        return case
     case = mcase.gen_mcase(rng, width="maybe", tighten_p=0.35, sparse_p=0.2, max_obs=9)
     tr = case["trace"]
     r = rng.random()
@@ -37,10 +42,14 @@ def gen_case(rng, i, tier):
         case["trace"][j] = [tr[j][0] + rng.choice([-7.0, 7.0, 3.0]), tr[j][1] + rng.choice([0.0, 5.0])]
     case["ops"] = gen.gen_history(rng, len(case["trace"]), case["cfg"]["width"], allow_cwd=False, max_ops=3)
     case["debug"] = rng.random() < 0.2
+    if not case.get("large") and not case["map"].get("latlon"):
+        gen.add_pre_trace(rng, case)
     return case
 
 
 def check_case(ctx, case):
+    if case.get("large"):
+        ctx.count("large_map_cases")
     mp = build.make_inmem(case["map"])
     mt = build.make_matcher(mp, case["cfg"])
     tr = build.trace(case["trace"])
